@@ -4,6 +4,8 @@
   Same line protocol as `harness/src/bin/impl_scan.rs` (which answers from the real engine):
     reset                                  -> ok
     add <type> <key>                       -> ok          (string|list|set|hash|zset|stream; replaces the key)
+    addttl <type> <key> <ms>               -> ok          (the same with a TTL that outlives the run: a live key)
+    addexp <type> <key>                    -> ok          (created with a TTL that has run out: the key does not exist)
     del <key>                              -> 1 | 0
     scan <cursor> <count> <pat|~> <type|~> -> <next> <keys>
     eadd <h|s|z> <member> <value|-|score>  -> ok
@@ -101,6 +103,14 @@ def step (st : St) (ws : List String) : St × String :=
   | ["add", ty, k] =>
     match typeCode ty, ofHex k with
     | some t, some key => ({ st with db := upsert key t st.db }, "ok")
+    | _, _ => (st, "bad-op")
+  | ["addttl", ty, k, ms] =>
+    match typeCode ty, ofHex k, ms.toNat? with
+    | some t, some key, some _ => ({ st with db := upsert key t st.db }, "ok")
+    | _, _, _ => (st, "bad-op")
+  | ["addexp", ty, k] =>
+    match typeCode ty, ofHex k with
+    | some _, some key => ({ st with db := st.db.filter (fun kv => kv.1 != key) }, "ok")
     | _, _ => (st, "bad-op")
   | ["del", k] =>
     match ofHex k with
